@@ -29,18 +29,20 @@ let hex_of_chars (l : char list) : string =
 
 (* a case carries the implementation's statement as a tree (Some tree): it is that statement which is executed (impl_case), and
      T <id> <hex of the rendering of the prepared tree | ->
-   is printed once per case for the check to compare with the implementation's text; without a tree (the text did not parse) the
+   (script0 = the script as written, script = the script handed to the planners) is printed once per case for the check to compare with the implementation's text; without a tree (the text did not parse) the
    planner model's statement is executed (exec_case) and  T <id> model  is printed *)
 let () =
-  List.iter (fun (id, script, ctx, dbs, tree) ->
+  List.iter (fun (id, script0, script, ctx, dbs, tree) ->
     Printf.printf "S %d %s\n" id (if analyze_m15 script then "1" else "0");
+    (* N: the script the planners got is norm_script of the script as written (groupByNothing of the reader's entry point) *)
+    Printf.printf "N %d %s\n" id (if norm_script script0 = script then "1" else "0");
     (match tree with
      | Some t -> Printf.printf "T %d %s\n" id (match impl_text script ctx t with Some x -> hex_of_chars x | None -> "-")
      | None -> Printf.printf "T %d model\n" id);
     List.iteri (fun k d ->
       let (v1, v2, vdef, got, wdef, want) =
         match tree with
-        | Some t -> let o = impl_case script ctx d t in (z_to_int o.io_v1, z_to_int o.io_v2, z_to_int o.io_vdef, o.io_got, o.io_wdef, o.io_want)
+        | Some t -> let o = impl_case script0 script ctx d t in (z_to_int o.io_v1, z_to_int o.io_v2, z_to_int o.io_vdef, o.io_got, o.io_wdef, o.io_want)
         | None -> let o = exec_case script ctx d in (z_to_int o.eo_v1, z_to_int o.eo_v2, z_to_int o.eo_vdef, o.eo_got, o.eo_wdef, o.eo_want) in
       Printf.printf "D %d %d %d %d %d\n" id k v1 v2 vdef;
       if vdef = 1 then begin
